@@ -6,6 +6,7 @@ mod atomic;
 mod base;
 mod compile;
 mod cerr;
+mod classicenv;
 mod cldb;
 mod cldbsrc;
 mod conv;
@@ -39,6 +40,7 @@ fn main() {
         "compile" => compile::run(&rest),
         "coresyms" => coresyms::run(&rest),
         "passes" => passes::run(&rest),
+        "classicenv" => classicenv::run(&rest),
         "conv" => conv::run(&rest),
         "entry" => entry::run(&rest),
         "cldbmain" => entry::cldb_main(&rest),
